@@ -28,18 +28,24 @@ type sfield struct {
 	Kind      string   `json:"kind"`
 }
 
-func buildStruct(fs []sfield) reflect.Type {
+func buildStruct(fs []sfield) reflect.Type { return buildStructE(fs, false) }
+
+// buildStructE: with goEmbed the embedded structs are Go-embedded fields (Anonymous) instead of
+// fields carrying the `embed` option; the documentation promises the same resolution for both
+func buildStructE(fs []sfield, goEmbed bool) reflect.Type {
 	out := make([]reflect.StructField, len(fs))
 	for i, f := range fs {
 		sf := reflect.StructField{Name: f.Go}
 		if f.Embed {
-			sf.Type = buildStruct(f.Sub)
+			sf.Type = buildStructE(f.Sub, goEmbed)
 			if f.Ptr {
 				sf.Type = reflect.PointerTo(sf.Type)
 			}
-			// Go embedding cannot be built with reflect for unnamed struct types in all cases;
-			// the `embed` tag option is the documented JSON equivalent
-			sf.Tag = `json:",embed"`
+			if goEmbed {
+				sf.Anonymous = true
+			} else {
+				sf.Tag = `json:",embed"`
+			}
 		} else {
 			switch f.Kind {
 			case "zeroer":
@@ -196,7 +202,7 @@ func replayFld(args map[string]string) error {
 		return err
 	}
 	defer out.close()
-	var cases, evals, skipped atomic.Int64
+	var cases, evals, skipped, goEmbedded atomic.Int64
 	err = parallelLines(args["cases"], runtime.NumCPU(), func(line []byte) {
 		var rec []jsontext.Value
 		if err := jsonv2.Unmarshal(line, &rec); err != nil || len(rec) != 3 {
@@ -215,132 +221,147 @@ func replayFld(args map[string]string) error {
 		bad := func(what string, got, want any) {
 			out.put(map[string]any{"prop": "C15", "family": "fld", "case": raw, "what": what, "got": got, "want": want})
 		}
-		var T reflect.Type
-		func() {
-			defer func() {
-				if r := recover(); r != nil {
-					T = nil
+		for _, goEmbed := range []bool{false, true} {
+			badV := func(what string, got, want any) {
+				if goEmbed {
+					what = "Go-embedded: " + what
+				}
+				bad(what, got, want)
+			}
+			func() {
+				var T reflect.Type
+				func() {
+					defer func() {
+						if r := recover(); r != nil {
+							T = nil
+						}
+					}()
+					T = buildStructE(S, goEmbed)
+				}()
+				if T == nil {
+					if !goEmbed {
+						skipped.Add(1)
+					}
+					return
+				}
+				if goEmbed {
+					goEmbedded.Add(1)
+				}
+				defer func() {
+					if r := recover(); r != nil {
+						out.put(map[string]any{"prop": "C20", "family": "fld", "case": raw, "what": "panic", "detail": fmt.Sprint(r)})
+					}
+				}()
+				var order []orderEntry
+				for _, o := range orderRaw {
+					order = append(order, orderEntry{name: cpsToString(toInts(o[0])), path: toInts(o[1]), str: o[2].(bool), kind: o[3].(string), viaptr: o[4].(bool),
+						oz: o[5].(bool), oe: o[6].(bool), ozOpt: o[7].(bool), oeOpt: o[8].(bool)})
+				}
+				// --- Marshal: members and their order for each value class
+				for _, class := range []string{"full", "zero", "empty", "nilptr"} {
+					for _, ozOption := range []bool{false, true} {
+						v := reflect.New(T).Elem()
+						vclass := class
+						if class == "nilptr" {
+							vclass = "full"
+						}
+						allLeafPaths(S, nil, func(path []int, f sfield) {
+							leaf, ok := fieldAt(v, path, class != "nilptr")
+							if ok {
+								setLeaf(leaf, f.Kind, vclass, pathCode(path))
+							}
+						})
+						var want []string
+						for _, e := range order {
+							omitted := false
+							switch class {
+							case "zero":
+								omitted = e.oz
+								if ozOption {
+									omitted = e.ozOpt
+								}
+							case "empty":
+								omitted = e.oe
+								if ozOption {
+									omitted = e.oeOpt
+								}
+							case "nilptr":
+								omitted = e.viaptr
+							}
+							if !omitted {
+								q, _ := jsontext.AppendQuote(nil, e.name)
+								want = append(want, string(q)+":"+leafText(e.kind, e.str, vclass, pathCode(e.path)))
+							}
+						}
+						wantText := "{" + strings.Join(want, ",") + "}"
+						var opts []jsonv2.Options
+						if ozOption {
+							opts = append(opts, jsonv2.OmitZeroStructFields(true))
+						}
+						got, err := jsonv2.Marshal(v.Interface(), opts...)
+						evals.Add(1)
+						if err != nil {
+							badV("marshal-error "+class, err.Error(), wantText)
+						} else if string(got) != wantText {
+							badV(fmt.Sprintf("marshal %s omitzero-option=%v", class, ozOption), string(got), wantText)
+						}
+					}
+				}
+				// --- Unmarshal: which field a name is stored into
+				kindAt := map[int][2]any{}
+				allLeafPaths(S, nil, func(path []int, f sfield) { kindAt[pathCode(path)] = [2]any{f.Kind, f.Str} })
+				for _, p := range probesRaw {
+					name := cpsToString(toInts(p[0]))
+					for oi, insensitive := range []bool{false, true} {
+						res := p[1+oi].([]any)
+						kind := res[0].(string)
+						valText, wantCode := "7", 0
+						if kind == "field" {
+							wantCode = pathCode(toInts(res[1]))
+							k := kindAt[wantCode]
+							valText = leafText(k[0].(string), k[1].(bool), "full", 7)
+						}
+						q, _ := jsontext.AppendQuote(nil, name)
+						text := "{" + string(q) + ":" + valText + "}"
+						for _, reject := range []bool{false, true} {
+							opts := []jsonv2.Options{jsonv2.MatchCaseInsensitiveNames(insensitive), jsonv2.RejectUnknownMembers(reject)}
+							v := reflect.New(T)
+							err := jsonv2.Unmarshal([]byte(text), v.Interface(), opts...)
+							evals.Add(1)
+							wantErr := kind == "ambiguous" || (kind == "unknown" && reject)
+							if (err != nil) != wantErr {
+								badV(fmt.Sprintf("unmarshal %q insensitive=%v reject=%v error", name, insensitive, reject), err != nil, res)
+								continue
+							}
+							if err != nil {
+								continue
+							}
+							// exactly the predicted leaf is set
+							var setCodes []int
+							allLeafPaths(S, nil, func(path []int, f sfield) {
+								leaf, ok := fieldAt(v.Elem(), path, false)
+								if ok && !leaf.IsZero() {
+									setCodes = append(setCodes, pathCode(path))
+								}
+							})
+							var wantCodes []int
+							if kind == "field" {
+								wantCodes = []int{wantCode}
+							}
+							if !reflect.DeepEqual(setCodes, wantCodes) {
+								badV(fmt.Sprintf("unmarshal %q insensitive=%v stored-into", name, insensitive), setCodes, wantCodes)
+							}
+						}
+					}
 				}
 			}()
-			T = buildStruct(S)
-		}()
-		if T == nil {
-			skipped.Add(1)
-			return
-		}
-		defer func() {
-			if r := recover(); r != nil {
-				out.put(map[string]any{"prop": "C20", "family": "fld", "case": raw, "what": "panic", "detail": fmt.Sprint(r)})
-			}
-		}()
-		var order []orderEntry
-		for _, o := range orderRaw {
-			order = append(order, orderEntry{name: cpsToString(toInts(o[0])), path: toInts(o[1]), str: o[2].(bool), kind: o[3].(string), viaptr: o[4].(bool),
-				oz: o[5].(bool), oe: o[6].(bool), ozOpt: o[7].(bool), oeOpt: o[8].(bool)})
-		}
-		// --- Marshal: members and their order for each value class
-		for _, class := range []string{"full", "zero", "empty", "nilptr"} {
-			for _, ozOption := range []bool{false, true} {
-				v := reflect.New(T).Elem()
-				vclass := class
-				if class == "nilptr" {
-					vclass = "full"
-				}
-				allLeafPaths(S, nil, func(path []int, f sfield) {
-					leaf, ok := fieldAt(v, path, class != "nilptr")
-					if ok {
-						setLeaf(leaf, f.Kind, vclass, pathCode(path))
-					}
-				})
-				var want []string
-				for _, e := range order {
-					omitted := false
-					switch class {
-					case "zero":
-						omitted = e.oz
-						if ozOption {
-							omitted = e.ozOpt
-						}
-					case "empty":
-						omitted = e.oe
-						if ozOption {
-							omitted = e.oeOpt
-						}
-					case "nilptr":
-						omitted = e.viaptr
-					}
-					if !omitted {
-						q, _ := jsontext.AppendQuote(nil, e.name)
-						want = append(want, string(q)+":"+leafText(e.kind, e.str, vclass, pathCode(e.path)))
-					}
-				}
-				wantText := "{" + strings.Join(want, ",") + "}"
-				var opts []jsonv2.Options
-				if ozOption {
-					opts = append(opts, jsonv2.OmitZeroStructFields(true))
-				}
-				got, err := jsonv2.Marshal(v.Interface(), opts...)
-				evals.Add(1)
-				if err != nil {
-					bad("marshal-error "+class, err.Error(), wantText)
-				} else if string(got) != wantText {
-					bad(fmt.Sprintf("marshal %s omitzero-option=%v", class, ozOption), string(got), wantText)
-				}
-			}
-		}
-		// --- Unmarshal: which field a name is stored into
-		kindAt := map[int][2]any{}
-		allLeafPaths(S, nil, func(path []int, f sfield) { kindAt[pathCode(path)] = [2]any{f.Kind, f.Str} })
-		for _, p := range probesRaw {
-			name := cpsToString(toInts(p[0]))
-			for oi, insensitive := range []bool{false, true} {
-				res := p[1+oi].([]any)
-				kind := res[0].(string)
-				valText, wantCode := "7", 0
-				if kind == "field" {
-					wantCode = pathCode(toInts(res[1]))
-					k := kindAt[wantCode]
-					valText = leafText(k[0].(string), k[1].(bool), "full", 7)
-				}
-				q, _ := jsontext.AppendQuote(nil, name)
-				text := "{" + string(q) + ":" + valText + "}"
-				for _, reject := range []bool{false, true} {
-					opts := []jsonv2.Options{jsonv2.MatchCaseInsensitiveNames(insensitive), jsonv2.RejectUnknownMembers(reject)}
-					v := reflect.New(T)
-					err := jsonv2.Unmarshal([]byte(text), v.Interface(), opts...)
-					evals.Add(1)
-					wantErr := kind == "ambiguous" || (kind == "unknown" && reject)
-					if (err != nil) != wantErr {
-						bad(fmt.Sprintf("unmarshal %q insensitive=%v reject=%v error", name, insensitive, reject), err != nil, res)
-						continue
-					}
-					if err != nil {
-						continue
-					}
-					// exactly the predicted leaf is set
-					var setCodes []int
-					allLeafPaths(S, nil, func(path []int, f sfield) {
-						leaf, ok := fieldAt(v.Elem(), path, false)
-						if ok && !leaf.IsZero() {
-							setCodes = append(setCodes, pathCode(path))
-						}
-					})
-					var wantCodes []int
-					if kind == "field" {
-						wantCodes = []int{wantCode}
-					}
-					if !reflect.DeepEqual(setCodes, wantCodes) {
-						bad(fmt.Sprintf("unmarshal %q insensitive=%v stored-into", name, insensitive), setCodes, wantCodes)
-					}
-				}
-			}
 		}
 		_ = bytes.Equal
 	})
 	if err != nil {
 		return err
 	}
-	summary(map[string]any{"cases": cases.Load(), "evaluations": evals.Load(), "skipped_types": skipped.Load(), "mismatches": out.n})
+	summary(map[string]any{"cases": cases.Load(), "evaluations": evals.Load(), "skipped_types": skipped.Load(), "go_embedded_variants": goEmbedded.Load(), "mismatches": out.n})
 	return nil
 }
 
